@@ -436,7 +436,10 @@ func (s *spanScreen) scroll(y1 int, y2 int, dy int) {
 	y2 = clamp(y2, 0, s.size.Y-1)
 	if y1 > y2 {
 		fmt.Fprintln(os.Stderr, "scroll ys out of order", y1, y2, dy)
+		return
 	}
+	// A distance larger than the region just clears it.
+	dy = clamp(dy, -(y2 - y1 + 1), y2-y1+1)
 
 	if dy > 0 {
 		for y := y2; y >= y1+dy; y-- {
